@@ -793,8 +793,10 @@ struct elements_iterator_t : boost::multi::random_accessable<elements_iterator_t
 	BOOST_MULTI_HD constexpr auto operator=(elements_iterator_t const& other) -> elements_iterator_t& {  // fixes (?) warning: definition of implicit copy assignment operator for 'elements_iterator_t<boost::multi::array<double, 3> *, boost::multi::layout_t<1>>' is deprecated because it has a user-declared copy constructor [-Wdeprecated-copy]
 		if(&other == this) {return *this;}  // for cert-oop54-cpp
 		base_ = other.base_;
+		l_ = other.l_;
 		xs_ = other.xs_;
 		n_ = other.n_;
+		ns_ = other.ns_;  // the position: without it the assigned iterator keeps designating its old element
 		return *this;
 	}
 
